@@ -53,11 +53,7 @@ def spec_items(tier):
         yield from build.enum_mdps(2, [('b',), ('a', 'b')], 1, [F(-1), F(1)], [()], [build.INIT_MENU[2][1]], [F(1, 2)])
         yield from build.chain_mdps(3, [F(1)], [F(-1), F(0)])
     else:
-        yield from build.enum_mdps(2, [('a',), ('b',), ('a', 'b')], 1, [F(-2), F(-1), F(0), F(1)], build.subsets(2),
-                                   build.INIT_MENU[2], G)
-        yield from build.enum_mdps(3, AS, 1, [F(-1), F(0)], [(), (2,)], [build.INIT_MENU[3][0], build.INIT_MENU[3][2]],
-                                   [F(9, 10), F(1)])
-        yield from build.chain_mdps(3, G, [F(-1), F(0), F(1)])
+        yield from build.thorough_mdps()
 
 
 def items(tier, seed):
